@@ -17,7 +17,8 @@ RULE = ("ints: 0, +-(10^k-2..10^k+2) for k=0..18, int64 extremes, every permutat
         "random doubles (also through the Lean model of the produced text), batch vs single-row evaluation; integer columns "
         "through a DelimitedBuffer (fixed-width digit matrix; widest entry 10/19/20 characters, values around 2^31..10^10, signed "
         "columns), optional columns with missing values, integer matrices through matrix_dump, integer/float/List[int] columns "
-        "written and parsed through a delimited buffer. Non-trivial = |n| within 2 "
+        "written and parsed through a delimited buffer; every function also on fresh views (reordered / masked / sliced / stepped / "
+        "reversed selections of a larger array, ragged array or table, also chained) and on every integer dtype. Non-trivial = |n| within 2 "
         "of a power of ten, an int64 extreme, a sign, or a batch with >= 2 widths (ints); >= 2 rows or an exponent or >= 16 "
         "digits (floats)")
 EXHAUSTIVE = {"quick": False, "thorough": False}
@@ -271,6 +272,26 @@ def cases(tier, rng):
     for _ in range(1500 if big else 40):
         rows = [_float_text(rng) for _ in range(rng.choice([2, 3, 4]))]
         yield {"op": "fbatch", "rows": rows}
+    # ---- the same functions on fresh, not yet materialised views (row selections / reorderings / slices of a larger array)
+    def view():
+        return {"kind": rng.choice(VIEW_KINDS), "seed": rng.randrange(10 ** 6)}
+    for _ in range(1500 if big else 150):
+        n = rng.choice([1, 2, 3, 5, 8])
+        ns = [rng.choice(S) if rng.random() < 0.3 else _rand_int(rng) for _ in range(n)]
+        yield {"op": "fmt", "ns": ns, "view": view()}
+        rows = [[rng.choice(S) if rng.random() < 0.2 else _rand_int(rng) for _ in range(rng.choice([0, 1, 1, 2, 3, 6]))] for _ in range(n)]
+        if not any(rows):
+            rows[0] = [7]
+        yield {"op": "intlists", "rows": rows, "keep_last": rng.random() < 0.3, "view": view()}
+        yield {"op": "parse", "rows": [_int_text(rng) for _ in range(n)], "view": view()}
+        yield {"op": "fparse", "rows": [_float_text(rng) for _ in range(n)], "view": view()}
+        if rng.random() < 0.3:
+            k = rng.choice([1, 2, 3])
+            yield {"op": "matrix", "rows": [[_rand_int(rng) for _ in range(k)] for _ in range(n)], "view": view()}
+        if rng.random() < 0.3:
+            yield {"op": "column", "ints": [_rand_int(rng) for _ in range(n)], "unsigned": rng.random() < 0.5,
+                   "floats": [f2h(_finite(_rand_double(rng))) for _ in range(n)],
+                   "lists": [[_rand_int(rng) for _ in range(rng.choice([1, 2, 4]))] for _ in range(n)], "view": view()}
     # ---- every integer dtype formats correctly (extremes of the narrower signed / unsigned types)
     for dt, lo, hi in [("int8", -2 ** 7, 2 ** 7 - 1), ("int16", -2 ** 15, 2 ** 15 - 1), ("int32", -2 ** 31, 2 ** 31 - 1),
                        ("int64", I64MIN, I64MAX), ("uint8", 0, 2 ** 8 - 1), ("uint16", 0, 2 ** 16 - 1), ("uint32", 0, 2 ** 32 - 1),
@@ -400,7 +421,14 @@ def _column_impl(c):
     from npstructures import RaggedArray
     Row, B = _row_buffer()
     floats = [float.fromhex(h) for h in c["floats"]]
-    data = Row(np.array(_column_ints(c), dtype=np.int64), np.array(floats), RaggedArray(c["lists"]))
+    if c.get("view"):
+        rows3 = list(zip(_column_ints(c), floats, c["lists"]))
+        full, sels = _embed(rows3, c["view"], lambda r: (_junk_int(r), 2.5, _junk_ints(r) or [1]))
+        data = Row(np.array([t[0] for t in full], dtype=np.int64), np.array([t[1] for t in full]), RaggedArray([t[2] for t in full]))
+        for sel in sels:
+            data = data[sel]
+    else:
+        data = Row(np.array(_column_ints(c), dtype=np.int64), np.array(floats), RaggedArray(c["lists"]))
     raw = B.from_data(data)
     text = bytes(np.asarray(raw.raw(), dtype=np.uint8)).decode("ascii")
     buf = B.from_raw_buffer(np.frombuffer(text.encode("ascii"), dtype=np.uint8).copy())
@@ -433,14 +461,90 @@ def _column_ints_impl(c):
     return [int(v) for v in buf.get_data().a]
 
 
+VIEW_KINDS = ["order", "mask", "tail", "head", "step", "rev", "mask+order", "order+tail"]
+
+
+def _embed(rows, view, junk):
+    """(full_rows, selectors): a larger list of rows and index expressions such that full[sel0][sel1]... == rows.
+    Deterministic in the case (view = {"kind", "seed"}); `junk(rng)` makes a filler row."""
+    import random as _r
+    rng = _r.Random(view["seed"])
+    full, sels = list(rows), []
+    for kind in reversed(view["kind"].split("+")):      # built inside-out: the last selector applied is embedded first
+        n = len(full)
+        if kind == "order":
+            p = list(range(n))
+            rng.shuffle(p)
+            new = [None] * n
+            for i, t in enumerate(p):
+                new[t] = full[i]
+            full, sel = new, list(p)
+        elif kind == "mask":
+            keep, new = [], []
+            for r in full:
+                while rng.random() < 0.4:
+                    new.append(junk(rng)); keep.append(False)
+                new.append(r); keep.append(True)
+            if rng.random() < 0.6:
+                new.append(junk(rng)); keep.append(False)
+            full, sel = new, np.array(keep, dtype=bool)
+        elif kind == "tail":
+            full, sel = [junk(rng)] + full, slice(1, None)
+        elif kind == "head":
+            full, sel = full + [junk(rng)], slice(None, -1)
+        elif kind == "step":
+            new = []
+            for r in full:
+                new += [r, junk(rng)]
+            full, sel = new, slice(None, None, 2)
+        elif kind == "rev":
+            full, sel = full[::-1], slice(None, None, -1)
+        else:
+            raise ValueError(kind)
+        sels.insert(0, sel)
+    return full, sels
+
+
+def _viewed(rows, view, junk, make):
+    """the container `make(full_rows)` with the selectors applied (or just make(rows) without a view)"""
+    if not view:
+        return make(rows)
+    full, sels = _embed(rows, view, junk)
+    obj = make(full)
+    for sel in sels:
+        obj = obj[sel]
+    return obj
+
+
+def _junk_int(rng):
+    return rng.choice([0, -7, 10 ** 18, -10 ** 9, 12345678901, 5, I64MAX])
+
+
+def _junk_ints(rng):
+    return [_junk_int(rng) for _ in range(rng.choice([0, 1, 2, 3, 5]))]
+
+
+def _junk_text(rng):
+    return rng.choice(["7", "-123456789012", "0042", "+9", "31415926535897", "8"])
+
+
+def _junk_ftext(rng):
+    return rng.choice(["7.5", "-1234.56789012", "0.0042", "9e3", "3.1415926535897", "8"])
+
+
 def impl(c):
     st = _strops()
     _, Err = _bnp()
     op = c["op"]
     try:
         if op == "fmt":
-            return _rows(st.ints_to_strings(np.array(c["ns"], dtype=np.dtype(c.get("dtype", "int64")))))
+            dt = np.dtype(c.get("dtype", "int64"))
+            return _rows(st.ints_to_strings(_viewed(c["ns"], c.get("view"), _junk_int if dt == np.int64 else (lambda r: 1),
+                                                    lambda rows: np.array(rows, dtype=dt))))
         if op == "parse":
+            from bionumpy.encoded_array import as_encoded_array
+            if c.get("view"):
+                return [int(v) for v in st.str_to_int(_viewed(c["rows"], c["view"], _junk_text, as_encoded_array))]
             return [int(v) for v in st.str_to_int(c["rows"])]
         if op == "parse1":
             from bionumpy.encoded_array import as_encoded_array
@@ -449,7 +553,7 @@ def impl(c):
             return [int(v) for v in st.str_to_int(st.ints_to_strings(np.array(c["ns"], dtype=np.int64)))]
         if op == "intlists":
             from npstructures import RaggedArray
-            return _rows(st.int_lists_to_strings(RaggedArray(c["rows"]), keep_last=c["keep_last"]))
+            return _rows(st.int_lists_to_strings(_viewed(c["rows"], c.get("view"), _junk_ints, RaggedArray), keep_last=c["keep_last"]))
         if op == "splitparse":
             from bionumpy.encoded_array import as_encoded_array
             return [int(v) for v in st.str_to_int(st.split(as_encoded_array(c["text"]), sep=","))]
@@ -459,11 +563,15 @@ def impl(c):
             return [int(v) for v in st.str_to_int_with_missing(c["rows"], c["missing"])]
         if op == "matrix":
             from bionumpy.io.matrix_dump import matrix_to_csv, parse_matrix
-            m = np.array(c["rows"], dtype=np.int64)
+            k = len(c["rows"][0])
+            m = _viewed(c["rows"], c.get("view"), lambda r: [_junk_int(r) for _ in range(k)], lambda rows: np.array(rows, dtype=np.int64))
             text = matrix_to_csv(m, header=["c%d" % i for i in range(m.shape[1])]).to_string()
             back = parse_matrix(text, field_type=int, rowname_type=None, sep=",")
             return {"text": text, "back": [[int(v) for v in r] for r in back.data]}
         if op == "fparse":
+            if c.get("view"):
+                from bionumpy.encoded_array import as_encoded_array
+                return [f2h(v) for v in st.str_to_float(_viewed(c["rows"], c["view"], _junk_ftext, as_encoded_array))]
             return [f2h(v) for v in st.str_to_float(c["rows"])]
         if op == "froundtrip":
             xs = np.array([float.fromhex(h) for h in c["xs"]])
@@ -640,3 +748,33 @@ def finding_key(c, got, exp):
     if op == "intlists":
         return "int_lists_to_strings:wrong-text"
     return op + ":wrong-result"
+
+
+# ---------------------------------------------------------------- history / aliasing probe (core.run_check)
+
+def live_cases(tier, rng):
+    out = []
+    for c in cases("quick", rng):
+        if c["op"] in ("fmt", "intlists", "parse", "fparse") and len(out) < (3000 if tier in ("thorough", "widen") else 600):
+            out.append(c)
+    return out
+
+
+def impl_live(c):
+    """the live result object of the real call (kept by the caller while a later call runs) and its canonicaliser"""
+    st = _strops()
+    from bionumpy.encoded_array import as_encoded_array
+    from npstructures import RaggedArray
+    op = c["op"]
+    if op == "fmt":
+        dt = np.dtype(c.get("dtype", "int64"))
+        r = st.ints_to_strings(_viewed(c["ns"], c.get("view"), _junk_int if dt == np.int64 else (lambda q: 1), lambda rows: np.array(rows, dtype=dt)))
+        return r, _rows
+    if op == "intlists":
+        r = st.int_lists_to_strings(_viewed(c["rows"], c.get("view"), _junk_ints, RaggedArray), keep_last=c["keep_last"])
+        return r, _rows
+    if op == "parse":
+        r = st.str_to_int(_viewed(c["rows"], c.get("view"), _junk_text, as_encoded_array))
+        return r, (lambda v: [int(x) for x in v])
+    r = st.str_to_float(_viewed(c["rows"], c.get("view"), _junk_ftext, as_encoded_array))
+    return r, (lambda v: [f2h(x) for x in v])
